@@ -1251,6 +1251,19 @@ impl Gen {
                 arms.push(Arm { variant: Some(vi), variant_name: vn.clone(), binds, guard, body });
             }
         }
+        // guarded `_` arms anywhere among the variant arms (the match stays exhaustive:
+        // every variant has an unguarded arm or the final `_` follows)
+        if self.rng.chance(1, 4) {
+            for _ in 0..1 + self.rng.usize(2) {
+                self.push_scope();
+                let g = self.guard_expr(d);
+                let body = self.value_block_inner(ty, d, typed);
+                self.pop_scope();
+                let at = self.rng.usize(arms.len() + 1);
+                arms.insert(at, Arm { variant: None, variant_name: "_".into(), binds: vec![], guard: Some(g), body });
+                self.tag(format!("match:guarded-default:{}", if use_default { "before-default" } else { "all-variants-named" }));
+            }
+        }
         if use_default {
             self.push_scope();
             let body = self.value_block_inner(ty, d, typed);
